@@ -45,11 +45,14 @@ namespace glm
 			detail::float_t<T> const a(x[i]);
 			detail::float_t<T> const b(y[i]);
 
-			// Different signs means they do not match.
 			if(a.negative() != b.negative())
 			{
-				// Check for equality to make sure +0==-0
-				Result[i] = a.mantissa() == b.mantissa() && a.exponent() == b.exponent();
+				// Opposite signs: the distance through zero is the sum of both magnitudes,
+				// which also makes +0 == -0. Unsigned arithmetic cannot overflow here.
+				typedef typename detail::make_unsigned<typename detail::float_t<T>::int_type>::type uint_type;
+				uint_type const SignBit = static_cast<uint_type>(1) << (sizeof(uint_type) * 8 - 1);
+				uint_type const DiffULPs = (static_cast<uint_type>(a.i) & ~SignBit) + (static_cast<uint_type>(b.i) & ~SignBit);
+				Result[i] = MaxULPs[i] >= 0 && DiffULPs <= static_cast<uint_type>(MaxULPs[i]);
 			}
 			else
 			{
